@@ -101,10 +101,24 @@ def generate(rng, n, tier, pid):
                     continue
                 sched = [[], ["s:1"] * 20, ["i", "s:2", "i", "i", "s:1"]][k % 3]
                 out.append(f"{bs} {'used' if k % 2 else 'none'} {hexs(list(s))} " + " ".join(sched))
+    # arena geometry: the chunk sequence must not depend on how much room the caller's arena has left
+    # when a refill happens (a carried FE with 0, 1, 2.. bytes of room is where a clamped read shows)
+    La = 4 if tier == "quick" else 6
+    for ln in range(1, La + 1):
+        for s in itertools.product([FE, FD, 0], repeat=ln):
+            if FE not in s:
+                continue
+            for bs in (1, 2, 3):
+                for rem in range(0, 7):
+                    k += 1
+                    if tier == "quick" and ln >= 4 and k % 2:
+                        continue
+                    out.append(f"{bs} rem{rem} {hexs(list(s))}")
     for _ in range(n):
         bs = rng.weighted([(3, rng.below(6)), (2, rng.range(6, 70)), (1, 4096), (1, 524288)])
         s = rand_stream(rng, rng.weighted([(3, rng.below(30)), (2, rng.below(300)), (1, rng.below(1500))]))
-        out.append(f"{bs} {rng.choice(['none', 'used'])} {hexs(s)} " + " ".join(rand_sched(rng)))
+        arena = rng.weighted([(2, 'none'), (2, 'used'), (3, f"rem{rng.below(8)}"), (2, f"rem{bs + rng.below(4)}"), (1, f"rem{rng.below(300)}")])
+        out.append(f"{bs} {arena} {hexs(s)} " + " ".join(rand_sched(rng)))
     return out
 
 
